@@ -12,10 +12,10 @@ THEOREMS = [(M, "NQ.C04." + n) for n in [
     "store_undefined_faults", "load_undefined_faults", "ret_undefined_faults",
     "addm_bad_modulus_faults", "subm_bad_modulus_faults", "double_alloc_faults",
     "free_unallocated_faults", "store_past_end_faults", "load_past_end_faults", "undef_past_end_faults",
-    "step_frame", "step_frame_apps", "store_cell",
+    "step_frame", "step_frame_apps", "step_frame_global", "store_cell",
     "add_spec", "sub_spec", "residue_spec", "addm_spec", "subm_spec", "residue_fits",
     "jmp_spec", "bez_spec", "bnz_spec", "beq_spec", "bne_spec", "blt_spec", "bge_spec", "nonbranch_pc",
-    "run_det", "run_fuel_mono",
+    "run_det", "run_fuel_mono", "runAll_frame_apps",
     "ret_reg_spec", "ret_reg_copy", "ret_arr_spec_partial", "ret_arr_frozen_partial",
     "ret_arr_alias_counterexample"]]
 TRANSLATORS = []
@@ -108,7 +108,7 @@ def run(ctx):
                 "every 3rd scenario in hardware mode, every 7th through the QNodeController message handlers; "
                 "a scenario is non-trivial when at least 3 instructions were executed; distinct by scenario JSON")
     rng = ctx.rng
-    n_random = 40000 if ctx.thorough else 3000
+    n_random = 150000 if ctx.thorough else 12000
     drv = ctx.driver
 
     def differs(c):
